@@ -794,3 +794,101 @@ M('C16','group-wrong-transition','runtime/workerpool/group.go','''	pool.PendingT
 M('C16','decrease-increases','runtime/workerpool/workerpool.go','''func (w *WorkerPool) decreasePendingTasks() {
 	w.PendingTasksCounter.Decrease()''','''func (w *WorkerPool) decreasePendingTasks() {
 	w.PendingTasksCounter.Increase()''','conserve/counter-pairing')
+
+# ---------------- C18
+M('C18','poll-cancel-arm-returns','runtime/timed/queue.go','''		case <-polledElement.Value.cancel:
+			timeutil.CleanupTimer(timer)
+			continue
+
+		// return the result after the time is reached''','''		case <-polledElement.Value.cancel:
+			timeutil.CleanupTimer(timer)
+			return polledElement.Value.Value
+
+		// return the result after the time is reached''','poll/')
+M('C18','poll-shutdown-returns-early','runtime/timed/queue.go','''			if t.shutdownFlags.HasBits(IgnorePendingTimeouts) {
+				timeutil.CleanupTimer(timer)
+				return polledElement.Value.Value
+			}
+''','''			if !t.shutdownFlags.HasBits(PanicOnModificationsAfterShutdown) {
+				timeutil.CleanupTimer(timer)
+				return polledElement.Value.Value
+			}
+''','poll/value-only-when-due')
+M('C18','poll-cancelpending-delivers','runtime/timed/queue.go','''			if t.shutdownFlags.HasBits(CancelPendingElements) {
+				timeutil.CleanupTimer(timer)
+				var empty T
+
+				return empty
+			}
+''','''			if t.shutdownFlags.HasBits(CancelPendingElements) {
+				timeutil.CleanupTimer(timer)
+			}
+''','poll/cancelled-never-delivered')
+M('C18','cancel-close-unguarded','runtime/timed/queue.go','''	select {
+	case <-timedQueueElement.cancel:
+		// channel is already closed
+	default:
+		// close the cancel channel to notify subscribers
+		close(timedQueueElement.cancel)
+	}''','''	close(timedQueueElement.cancel)''','cancel/close-once-under-lock')
+M('C18','cancel-nolock','runtime/timed/queue.go','''	timedQueueElement.timedQueue.heapMutex.Lock()
+	defer timedQueueElement.timedQueue.heapMutex.Unlock()
+''','','lock/guarded-by Queue.removeElement() in runtime/timed.QueueElement.Cancel')
+M('C18','remove-no-index-guard','runtime/timed/queue.go','''	if element.rawElem.Index() == -1 {
+		return
+	}
+''','','cancel/removes-from-heap runtime/timed.Queue.removeElement')
+M('C18','add-no-signal','runtime/timed/queue.go','''	// signal waiting goroutine to wake up
+	t.waitCond.Signal()
+''','','cond/wake-obligation runtime/timed.Queue.Add')
+M('C18','shutdown-broadcast-only-empty','runtime/timed/queue.go','''	t.waitCond.Broadcast()
+	t.heapMutex.Unlock()
+}''','''	if len(t.heap) == 0 {
+		t.waitCond.Broadcast()
+	}
+	t.heapMutex.Unlock()
+}''','cond/wake-obligation runtime/timed.Queue.Shutdown')
+M('C18','size-nolock','runtime/timed/queue.go','''func (t *Queue[T]) Size() int {
+	t.heapMutex.RLock()
+	defer t.heapMutex.RUnlock()
+''','''func (t *Queue[T]) Size() int {
+''','lock/guarded-by Queue.heap in runtime/timed.Queue.Size')
+M('C18','isshutdown-nolock','runtime/timed/queue.go','''func (t *Queue[T]) IsShutdown() bool {
+	t.shutdownMutex.Lock()
+	defer t.shutdownMutex.Unlock()
+''','''func (t *Queue[T]) IsShutdown() bool {
+''','lock/guarded-by Queue.isShutdown in runtime/timed.Queue.IsShutdown')
+M('C18','executor-add-in-goroutine','runtime/timed/executor.go','''		t.shutdownWG.Add(1)
+		go func() {
+			for''','''		go func() {
+			t.shutdownWG.Add(1)
+			for''','wg/add-before-go')
+M('C18','taskexec-unconditional-delete','runtime/timed/taskexecutor.go','''		if queuedElement, queuedElementExists := t.queuedElements.Get(identifier); queuedElementExists && queuedElement == scheduledTask {
+			t.queuedElements.Delete(identifier)
+		}''','''		t.queuedElements.Delete(identifier)''','ident/unregister-own-entry')
+M('C18','taskexec-no-cancel-on-reschedule','runtime/timed/taskexecutor.go','''	if queuedElement, queuedElementExists := t.queuedElements.Get(identifier); queuedElementExists {
+		queuedElement.Cancel()
+	}
+
+	var scheduledTask''','''	var scheduledTask''','taskexec/reschedule-cancels')
+M('C18','taskexec-cancel-always-true','runtime/timed/taskexecutor.go','''	if !queuedElementExists {
+		return false
+	}
+''','''	if !queuedElementExists {
+		return true
+	}
+''','taskexec/cancel-result')
+M('C18','heapkey-reversed','runtime/timed/heapkey.go','''	if time.Time(t).Before(time.Time(other)) {
+		return -1
+	}
+	if time.Time(t).After(time.Time(other)) {
+		return 1
+	}''','''	if time.Time(t).Before(time.Time(other)) {
+		return 1
+	}
+	if time.Time(t).After(time.Time(other)) {
+		return -1
+	}''','cmp/direction')
+M('C18','heap-swap-no-index','ds/generalheap/generalheap.go','''	h[i], h[j] = h[j], h[i]
+	h[i].index, h[j].index = i, j''','''	h[i], h[j] = h[j], h[i]''','heap/index-maintained ds/generalheap.Heap.Swap')
+M('C18','heap-less-reversed','ds/generalheap/generalheap.go','return h[i].Key.CompareTo(h[j].Key) < 0','return h[i].Key.CompareTo(h[j].Key) > 0','heap/index-maintained ds/generalheap.Heap.Less')
